@@ -291,7 +291,10 @@ def rule_P1(ctx):
         for c, atoms in empties:
             extra = [a for a in _flat_(atoms) if a not in gate_flat and not (
                 "items_count" in str(a[1]) or "actions" in str(a[1])
-                or (a[0] in ("truthy", "falsy") and "has_items" in str(a[1])))]
+                or (a[0] in ("truthy", "falsy") and "has_items" in str(a[1]))
+                # the item list of a task with items_count == 0 is empty (it is initialised
+                # as [...] * items_count): 'no items in the staged entry' is no extra condition
+                or (a[0] == "falsy" and "'items'" in str(a[1]).replace('"', "'")))]
             if not extra:
                 ok_e = True
             else:
